@@ -49,7 +49,7 @@ def scriptToOps (toks : List String) : List Op := Id.run do
       -- `will_execute` stores the verifier before the signature gate refuses
       ops := ops ++ [Op.refused (if Generated.Layout.verifierPushedBeforeGate then some 1 else none)]
       nver := nver + (if Generated.Layout.verifierPushedBeforeGate then 1 else 0)
-    else if tk.startsWith "S" || tk == "Z" || tk.startsWith "A" || tk.startsWith "M" then
+    else if tk.startsWith "S" || tk == "Z" || tk.startsWith "A" || tk.startsWith "M" || tk.startsWith "W" then
       ops := ops ++ [Op.refused none]
     else if tk == "U" then
       ops := ops ++ [Op.userPanic]
@@ -88,10 +88,13 @@ def handlePan (toks : List String) : Verdict := Id.run do
       if kv obs "relock" != some "1" then keys := keys ++ ["c05.guard-unusable"]
       -- (an installation refused by `mprotect` after its trampoline was obtained leaves that
       --  mapping behind on the pinned tree: not part of C05's statement, not judged here)
-      if kv obs "owned" != some "0" && !(toksL.any (·.startsWith "M")) then keys := keys ++ ["c05.mapping-left"]
+      if kv obs "owned" != some "0" && !(toksL.any (fun t => t.startsWith "M" || t.startsWith "W")) then keys := keys ++ ["c05.mapping-left"]
+      -- C17 under a W^X policy: whatever was written to an entry is covered by a later flush request
+      if (kv obs "wxunflushed").isSome && kv obs "wxunflushed" != some "0" then keys := keys ++ ["c17.entry-flush"]
       if st.panicked then tags := tags ++ ["bodypanic"]
       if e.newPanics > 0 then tags := tags ++ ["exitpanic"]
-      if toksL.any (fun t => t.startsWith "S" || t == "Z" || t.startsWith "A" || t.startsWith "M") then tags := tags ++ ["refusal"]
+      if toksL.any (fun t => t.startsWith "S" || t == "Z" || t.startsWith "A" || t.startsWith "M" || t.startsWith "W") then tags := tags ++ ["refusal"]
+      if toksL.any (·.startsWith "W") then tags := tags ++ ["wx-denied"]
       if toksL.any (·.startsWith "M") then tags := tags ++ ["mprotect-refused"]
       if st.panicked && anyMismatchD st.verifs then tags := tags ++ ["pending-unsatisfied"]
     | [] => pure ()
